@@ -281,6 +281,8 @@ def finish(pid, tier, seed, br: BuildResult, res: Result, t0, level_text=""):
         if v["signature"] in seen_sigs:
             continue
         seen_sigs.add(v["signature"])
+        if n_viol >= 8:
+            continue        # at most 8 replay files / VIOLATION lines per run; the rest are counted
         n_viol += 1
         path = REPLAYS / f"{pid}-{tier}-{seed}-{n_viol}.json"
         path.write_text(json.dumps({"property": pid, "kind": "failing-input", "seed": seed, **v,
